@@ -48,7 +48,7 @@ struct State {
   std::unique_ptr<sequence> seq[NSEQ];
   deathwatched<Dwt>* dw[NDW] = {};
   ExpPtr mon[NDW][NMON];
-  unsigned long monline[NDW][NMON] = {};
+  unsigned long monline[NDW][NMONX] = {};
   std::vector<TracerSlot> tracers;
   int tracer_ids = 0;
   int gen = 0;
@@ -332,6 +332,22 @@ void watch(int d, int ms, int eid, int nseq, const int* seqs) {
   S->mon[d][ms] = std::move(p);
   S->monline[d][ms] = line;
   g_activity = ACT_NONE;
+}
+void scoped_dw_run(int d, int nseq, int s0, bool kill_inside, void (*step)(void* ctx, int kind), void* ctx) {
+  auto& o = *S->dw[d];
+  auto body = [&](unsigned long line) {
+    S->monline[d][NMON] = line;
+    g_activity = ACT_NONE;
+    step(ctx, 0);
+    if (kill_inside) { destroy_dw(d); step(ctx, 1); }
+    g_activity = ACT_UNWATCH;
+  };
+  g_activity = ACT_CREATE;
+  if (nseq == 0) { REQUIRE_DESTRUCTION(o); body(__LINE__); }
+  else { REQUIRE_DESTRUCTION(o).IN_SEQUENCE(wseq(s0)); body(__LINE__); }
+  g_activity = ACT_NONE;
+  step(ctx, 2);
+  S->monline[d][NMON] = 0;
 }
 void unwatch(int d, int ms) {
   g_activity = ACT_UNWATCH;
